@@ -481,6 +481,16 @@ func runConcurrent(in io.Reader, out io.Writer, n int) {
 	}
 	base := runtime.NumGoroutine()
 	results := make([]string, len(ops))
+	// lines `warm <op>` are executed first, one after the other (they bring shared caches into a chosen state); the
+	// remaining ops are then started concurrently
+	var conc []int
+	for j, o := range ops {
+		if strings.HasPrefix(o, "warm ") {
+			results[j] = execOp(strings.TrimPrefix(o, "warm "))
+		} else {
+			conc = append(conc, j)
+		}
+	}
 	var wg sync.WaitGroup
 	start := make(chan struct{})
 	for g := 0; g < n; g++ {
@@ -488,8 +498,8 @@ func runConcurrent(in io.Reader, out io.Writer, n int) {
 		go func(g int) {
 			defer wg.Done()
 			<-start
-			for j := g; j < len(ops); j += n {
-				results[j] = execOp(ops[j])
+			for k := g; k < len(conc); k += n {
+				results[conc[k]] = execOp(ops[conc[k]])
 			}
 		}(g)
 	}
